@@ -49,7 +49,12 @@ impl<S: BitmapSlice + Send + Sync> PassthroughFs<S> {
     fn check_fd_flags(&self, data: Arc<HandleData>, fd: RawFd, flags: u32) -> io::Result<()> {
         let open_flags = data.get_flags();
         if open_flags != flags {
-            let ret = unsafe { libc::fcntl(fd, libc::F_SETFL, flags) };
+            // Same adjustments as open_inode(): no O_APPEND under writeback, no O_DIRECT unless allowed.
+            let mut host_flags = self.get_writeback_open_flags(flags as i32);
+            if !self.cfg.allow_direct_io {
+                host_flags &= !libc::O_DIRECT;
+            }
+            let ret = unsafe { libc::fcntl(fd, libc::F_SETFL, host_flags) };
             if ret != 0 {
                 return Err(io::Error::last_os_error());
             }
